@@ -172,6 +172,17 @@ ADD4 = {
     'C15': ' Registry.tla has the Register action; histories register a reader (a subclass of the gridded CAMx reader) between opens: the selection is the first accepting candidate of the CURRENT registry.',
     'C18': ' The file is also opened with nogroup=[one category] and read through the group accessors.',
 }
+ADD5 = {
+    'C08': ' uamiv is also written from a netCDF copy of the file (saved as NETCDF3, opened as netCDF4.Dataset) with a cell per species holding netCDF\'s default fill value: the bytes are those of the direct write.',
+    'C13': ' Every variable of a file is loaded before any is looked at.',
+    'C09': ' Every variable of a file is loaded before any is looked at.',
+    'C16': ' int16 coordinates with large values (neighbours summing beyond the type) and no bounds variable.',
+    'C17': ' The coordinate variable of another file as target levels beyond the source range, reused for a second interpolation.',
+    'C05': ' The argument of interpDimension (a variable of another file) is an object the call must leave unchanged.',
+    'C19': ' Blank comment attributes.',
+}
+for _k, _v in ADD5.items():
+    ADD4[_k] = ADD4.get(_k, '') + _v
 for _k, _v in ADD4.items():
     ADD3[_k] = ADD3.get(_k, '') + _v
 for _k, _v in ADD3.items():
